@@ -4,7 +4,7 @@ package main
 
 func init() {
 	props["C01"] = &propSpec{
-		Rules:      []string{"C01-a", "C01-b", "C01-e", "C01-f", "C19-f"},
+		Rules:      []string{"C01-a", "C01-b", "C01-e", "C01-f", "C19-f", "C19-g"},
 		Decides:    "Decides, on every path of every production function, structural necessary conditions of 'no row is dropped, truncated or altered': no error from the sorter / ingest / object store / on-disk index is dropped. It does not decide equality of stored and input rows (value-dependent); level 'other' because it is exhaustive over code paths but establishes a necessary condition only. Also decided: the workers' blocks are sorted by offset on every path before the table's block list is built, and the ingest CSV reader is configured only with loss-free options.",
 		NotDecided: "equality of the stored row set with the input row set, key order, de-duplication correctness, export fidelity (value-dependent).",
 	}
@@ -59,7 +59,7 @@ func init() {
 		NotDecided: "equality of the decoded object sequences under every partition of the stream (behavioural); readers handed to third-party decoders (gzip, json).",
 	}
 	props["C19"] = &propSpec{
-		Rules:      []string{"C19-a", "C19-b", "C19-d", "C19-e", "C19-f", "C01-a", "C01-b"},
+		Rules:      []string{"C19-a", "C19-b", "C19-d", "C19-e", "C19-f", "C01-a", "C01-b", "C19-g", "C19-h"},
 		Decides:    "Decides structural necessary conditions of 'every distinct key once, in key order': every loop that compares two rows position by position is two-sided (a '<' decision is paired with a '>'/'!=' test on the same operands before the next position); pre-removal key positions are never applied to a row after column removal; every spill file gets a close+remove cleanup that Close runs; spill errors are not dropped; the row codec does not wrap. Does not decide sortedness/de-duplication of the output for all multisets and memory limits. Also decided: fields set by AddRow/Close are re-armed by Reset.",
 		NotDecided: "sortedness and de-duplication of the output for all row multisets and memory limits (value-dependent).",
 	}
